@@ -86,7 +86,7 @@ def lint_function(m: Model, f: FuncInfo) -> list[tuple[int, str]]:
         txt = ast.unparse(n.func)
         if txt in ("isinstance", "issubclass") and len(n.args) == 2:
             a, b = _is_type_expr(m, f, n.args[0]), _is_type_expr(m, f, n.args[1])
-            if a is True and b is False:
+            if a is True and b is not True:
                 out.append((n.lineno, f"`{ast.unparse(n)[:70]}`: the object and the type are swapped (TypeError at run time)"))
             continue
         if txt == "asyncio.wait_for" and len(n.args) >= 2 and not isinstance(n.args[0], (ast.Call, ast.Await, ast.Name, ast.Attribute)) :
